@@ -188,7 +188,7 @@ def gen_info(rng):
         return None
     d = {}
     for key in rng.sample(["dataset", "redshift", "idx", "note", "z_1"], rng.randint(1, 3)):
-        d[key] = rng.choice(["x", "slacs0946", 1, 7, 0.5, 2.25, "a b"])
+        d[key] = rng.choice(["x", "slacs0946", 1, 7, 0.5, 2.25, "a b", 0, 0.0, False, ""])  # falsy values are values
     return d
 
 
@@ -486,10 +486,17 @@ def model_shape(model):
     return sha(d)
 
 
+def info_str(v):
+    """info values are stored in a text column: numbers come back as their text, booleans as 0 / 1"""
+    if isinstance(v, bool):
+        return str(int(v))
+    return str(v)
+
+
 def canon_info(d):
     if d is None:
         return None
-    return sorted([str(k), str(v)] for k, v in d.items())
+    return sorted([str(k), info_str(v)] for k, v in d.items())
 
 
 def json_token(obj):
@@ -684,7 +691,7 @@ def db_rows(session, pre: Pre):
             "grid": bool(f.is_grid_search),
             "parent": pre.name(f.parent_id) if f.parent_id is not None else None,
             "model": model_shape(f.model) if f.model is not None else None,
-            "info": sorted([str(k), str(v)] for k, v in f.info.items()),
+            "info": sorted([str(k), info_str(v)] for k, v in f.info.items()),
             "samples": None if samples is None else {"cls": samples.samples_info.get("class_path", ""), "rows": hex_rows(sample_rows(samples)), "names": names},
             "max_ll": None if f.max_log_likelihood is None else f2h(f.max_log_likelihood),
             "inst": None,
@@ -1160,7 +1167,7 @@ def oracle_scrape(ctx, rcase, records, rows, view, co, pre, t_real):
             ctx.fail("C11-tag", "unique_tag differs", rcase, [row["tag"], run["search"]["unique_tag"]])
         if row["name"] != e["name"]:
             ctx.fail("C11-name", "name differs", rcase, [row["name"], e["name"]])
-        want_info = sorted([str(k), str(v)] for k, v in (e["info"] or {}).items())
+        want_info = sorted([str(k), info_str(v)] for k, v in (e["info"] or {}).items())
         if row["info"] != want_info:
             ctx.fail("C11-info-lost", "info differs from the info the fit was given", rcase, [row["info"], want_info])
         if row["model"] != model_shape(e["model"]):
